@@ -209,7 +209,7 @@ CLAIMED.update({
                 "quantified_identifier_exact cover the absent field, plain lists and all(X)/of(X,n). On the crate every quantified "
                 "form (key lists of strings, numbers, booleans, mappings; identifier forms) for lengths 1..4-5 and thresholds "
                 "0..len+1 is compared with the same rule written as explicit and/or/not over one-member identifiers.",
-        "note": TB + "C08's own theorems are for string members on scalar string fields; numeric / boolean / null members, every key form and every value kind are covered by list_entry_refines (Properties/C02_lists.v: the count is over the members as written, by a counting invariant over the loader's batching), mapping members and the identifier forms by the explicit-expansion differential (and Pending/C02_all.v). Known findings D10, D11, D24 listed; D26 (array-valued fields) belongs to C02.",
+        "note": TB + "C08.v's theorems are for string members on scalar string fields; C08_lists.v (quantified_list_all_kinds, quantified_list_missing_all_kinds: corollaries of C02_lists.list_entry_refines) gives the quantifier tables for numeric / boolean / null members, every key form and every value kind (the count is over the members as written, by a counting invariant over the loader's batching); mapping members are in Properties/C02_all.v, the identifier forms all(X)/of(X,n) in quantified_identifier_exact and the explicit-expansion differential. Known findings D10, D11, D24 listed; D26 (array-valued fields) belongs to C02.",
         "technique": "Coq proof (counting invariant over the parser's list partition) + quantified-vs-explicit differential on the crate",
     },
 })
